@@ -334,7 +334,7 @@ next_item:
                                       err);
                         conn->error = err;
                         conn_disconnect(conn);
-                    } else if (!conn->tls) {
+                    } else if (ret == 0 && !conn->tls) {
                         /* return of 0 means socket closed by server */
                         strophe_debug(ctx, "xmpp",
                                       "Socket closed by remote host.");
